@@ -3,7 +3,7 @@
    response (FC 43/14, one page, distinct object ids); and the final theorem C01_decode_conforms. *)
 From PM.theories Require Import Base Struct PduCls PduSpec Pdu CorrPdu.
 From PM.Generated Require Import GenPdu.
-From PM.proofs Require Import Struct_proofs Pdu_bits_proofs Pdu_proofs Pdu_more_proofs Pdu_dec_proofs.
+From PM.proofs Require Import Struct_proofs Pdu_bits_proofs Pdu_proofs Pdu_more_proofs Pdu_dec1_proofs.
 From Coq Require Import ZifyBool.
 Open Scope string_scope.
 Open Scope list_scope.
@@ -341,4 +341,90 @@ Proof.
   - now apply dec_ReadWriteRegsRsp.
   - now apply dec_ReadDevIdRsp.
   - now apply dec_Exception.
+Qed.
+
+(* ---- explicit decoded objects of the write requests, and the wire-derived attributes -------------- *)
+
+Theorem dec_fc15_explicit a cs : spec_wf (MWriteCoilsReq a cs) = true ->
+  py_decode true (spec_pdu (MWriteCoilsReq a cs)) = Ok (OWriteCoilsReq a cs (bit_byte_count (len cs))).
+Proof.
+  intros Hwf. pose proof Hwf as H. cbn [spec_wf] in H. split_andb H.
+  dec_open.
+  change (u16 a ++ u16 (len cs) ++ u8 (bit_byte_count (len cs)) ++ spec_pack_bits cs)
+    with ((u16 a ++ u16 (len cs) ++ u8 (bit_byte_count (len cs))) ++ spec_pack_bits cs).
+  rewrite bslice_prefix by reflexivity. rewrite skipn_prefix by reflexivity.
+  unfold upk. rewrite unpack_HHB by assumption. cbn [bind].
+  rewrite py_unpack_spec. unfold len at 1. rewrite Nat2Z.id, firstn_unpack_pack. reflexivity.
+Qed.
+
+Theorem dec_fc16_explicit a rs : spec_wf (MWriteRegsReq a rs) = true ->
+  py_decode true (spec_pdu (MWriteRegsReq a rs)) = Ok (OWriteRegsReq a rs (len rs) (2 * len rs)).
+Proof.
+  intros Hwf. pose proof Hwf as H. cbn [spec_wf] in H. split_andb H. pose proof (u8_len_u16 rs H1) as Hl.
+  dec_open.
+  change (u16 a ++ u16 (len rs) ++ u8 (2 * len rs) ++ words rs) with ((u16 a ++ u16 (len rs) ++ u8 (2 * len rs)) ++ words rs).
+  rewrite bslice_prefix by reflexivity. rewrite skipn_prefix by reflexivity.
+  unfold upk. rewrite unpack_HHB by assumption. cbn [bind].
+  replace (len rs * 2 + 5) with (5 + 2 * len rs) by lia. rewrite range_len_2 by apply len_nonneg.
+  rewrite read_words_words by assumption. reflexivity.
+Qed.
+
+Theorem dec_fc23_explicit ra rq wa ws : spec_wf (MReadWriteRegsReq ra rq wa ws) = true ->
+  py_decode true (spec_pdu (MReadWriteRegsReq ra rq wa ws)) = Ok (ORWReq ra rq wa ws (len ws) (2 * len ws)).
+Proof.
+  intros Hwf. pose proof Hwf as H. cbn [spec_wf] in H. split_andb H. pose proof (u8_len_u16 ws H1) as Hl.
+  dec_open.
+  change (u16 ra ++ u16 rq ++ u16 wa ++ u16 (len ws) ++ u8 (2 * len ws) ++ words ws)
+    with ((u16 ra ++ u16 rq ++ u16 wa ++ u16 (len ws) ++ u8 (2 * len ws)) ++ words ws).
+  rewrite bslice_prefix by reflexivity. rewrite skipn_prefix by reflexivity.
+  unfold upk. rewrite unpack_HHHHB by assumption. cbn [bind].
+  replace (2 * len ws + 9) with (9 + 2 * len ws) by lia. rewrite range_len_2 by apply len_nonneg.
+  rewrite read_words_words by assumption. reflexivity.
+Qed.
+
+Lemma dec_bits_explicit c cs (K : list bool -> msg) :
+  (c = ReadCoilsResponse /\ K = MReadCoilsRsp) \/ (c = ReadDiscreteInputsResponse /\ K = MReadDiscreteRsp) ->
+  spec_wf (K cs) = true ->
+  py_decode false (spec_pdu (K cs)) = Ok (OBitsRsp c (spec_unpack_bits (spec_pack_bits cs)) (Some (bit_byte_count (len cs)))).
+Proof.
+  intros Hk Hwf.
+  assert (Hw : is_u8 (bit_byte_count (len cs)) = true) by (destruct Hk as [[-> ->]|[-> ->]]; exact Hwf).
+  destruct Hk as [[-> ->]|[-> ->]]; dec_open; unfold u8; cbn [app data0 bind skipn]; rewrite py_unpack_spec;
+    unfold reclass; cbn [obj_sub class_of]; unfold is_u8 in Hw; rewrite Z2N.id by lia; reflexivity.
+Qed.
+
+Lemma dec_mei_explicit c cf more next objs :
+  spec_wf (MReadDevIdRsp c cf more next objs) = true -> conforming_decode (MReadDevIdRsp c cf more next objs) = true ->
+  py_decode false (spec_pdu (MReadDevIdRsp c cf more next objs)) = Ok (OMeiRsp 14 c cf more next (len objs) (map one objs) None).
+Proof.
+  intros Hwf Hc. pose proof Hwf as H. cbn [spec_wf] in H. split_andb H.
+  cbn [conforming_decode] in Hc. apply andb_true_iff in Hc as [Hd Hfit].
+  dec_open.
+  set (hdr := u8 14 ++ u8 c ++ u8 cf ++ u8 more ++ u8 next ++ u8 (len objs)).
+  change (14%N :: u8 c ++ u8 cf ++ u8 more ++ u8 next ++ u8 (len objs) ++ flat_map object_bytes objs)
+    with (hdr ++ flat_map object_bytes objs).
+  rewrite bslice_prefix by reflexivity. rewrite skipn_prefix by reflexivity.
+  unfold upk, hdr. rewrite unpack_B6 by (assumption || reflexivity). cbn [bind].
+  rewrite dec_mei_objs_spec; [|exact H0| |].
+  2:{ cbn [keys_of map]. apply distinct_fresh; [exact Hd|]. apply forallb_forall. intros; reflexivity. }
+  2:{ rewrite app_length. change (length (u8 14 ++ u8 c ++ u8 cf ++ u8 more ++ u8 next ++ u8 (len objs))) with 6%nat.
+      assert (G : forall l : list (Z * bytes), (length l <= length (flat_map object_bytes l))%nat).
+      { induction l as [|o t IHt]; [cbn; lia|]. cbn [flat_map length]. rewrite app_length.
+        unfold object_bytes at 1. rewrite !app_length. cbn [u8 length]. lia. }
+      specialize (G objs). lia. }
+  cbn [bind app]. unfold reclass. cbn [obj_sub class_of]. tab. cbv beta iota.
+  match goal with |- context [lookup_sub ?t ?f ?s] => destruct (lookup_sub t f s) end; reflexivity.
+Qed.
+
+(* every attribute that decode() takes from the wire and [abs] does not look at holds the wire's value *)
+Theorem decode_wire_attrs m o : spec_wf m = true -> conforming_decode m = true ->
+  py_decode (msg_is_request m) (spec_pdu m) = Ok o -> wire_attrs_ok m o = true.
+Proof.
+  intros Hwf Hc H. destruct m; try discriminate Hc; try reflexivity; cbn [msg_is_request] in H.
+  - rewrite (dec_fc15_explicit _ _ Hwf) in H. injection H as <-. cbn [wire_attrs_ok]. apply Z.eqb_refl.
+  - rewrite (dec_bits_explicit ReadCoilsResponse coils MReadCoilsRsp (or_introl (conj eq_refl eq_refl)) Hwf) in H.
+    injection H as <-. cbn [wire_attrs_ok option_eqb]. apply Z.eqb_refl.
+  - rewrite (dec_bits_explicit ReadDiscreteInputsResponse inputs MReadDiscreteRsp (or_intror (conj eq_refl eq_refl)) Hwf) in H.
+    injection H as <-. cbn [wire_attrs_ok option_eqb]. apply Z.eqb_refl.
+  - rewrite (dec_mei_explicit _ _ _ _ _ Hwf Hc) in H. injection H as <-. cbn [wire_attrs_ok]. apply Z.eqb_refl.
 Qed.
